@@ -20,6 +20,12 @@ import Ts.Lemmas.C10
   packet-level vocabulary of C03 / C10 / C11 (`WellFormedSection`, `WellFormedMux`, `plOf`,
   `versionOf`, `RepPacket`).
 
+* `Current` / `currentOf` / `CollisionFreeNow` / `CollisionFreeNowAll` — the tables IN FORCE after a
+  history and their disjointness, per prefix (weaker than `CollisionFree`).
+* `DroppedClausePmt'` — the dropped clause as a statement about handler tags.
+* `Foreign` / `Interleaves` / `RealisesEvI` / `RealisesI` — realisations with elementary-stream packets
+  between the packets of one table.
+
 Why `slots` is part of the state and not computed from "latest PAT + latest PMTs": because of the
 quirks, routing is history dependent — a PID can stay routed to a handler that no current table lists.
 -/
@@ -320,5 +326,107 @@ inductive Realises : Route → List Event → List Pk → Prop where
   | nil (r : Route) : Realises r [] []
   | cons {r : Route} {ev : Event} {evs : List Event} {pks1 pks2 : List Pk} :
       RealisesEv r ev pks1 → Realises (stepRoute r ev) evs pks2 → Realises r (ev :: evs) (pks1 ++ pks2)
+
+/-! ### collision-freedom of the tables IN FORCE (per prefix; weaker than `CollisionFree`) -/
+
+/-- the program-map PIDs a PAT announces -/
+def progPids (es : List PatEntry) : List Nat := (es.filter isProgram).map PatEntry.pid
+
+/-- The tables in force after a history: the entries of the most recent PAT and, per program-map
+PID, the body of the most recent PMT applied on it SINCE that PID has continuously been announced as
+a program-map PID (`pmt` holds at most one body per PID).
+
+Why this is not read off `Route`: `Route.pmt p` is the memory of the current handler INSTANCE on `p`,
+which every PAT version resets (F7); the tables in force are a function of the history alone. -/
+structure Current where
+  pat : List PatEntry
+  pmt : List (Nat × Bytes)
+
+/-- * a PAT replaces the entry list and forgets the PMT of every PID it does not announce as a
+  program-map PID (a program that is dropped and announced again starts without a PMT);
+* a PMT on `p` replaces the body remembered for `p`;
+* other events change nothing. -/
+def stepCurrent (T : Current) : Event → Current
+  | .patApplied _ es => { pat := es, pmt := T.pmt.filter fun x => decide (x.1 ∈ progPids es) }
+  | .pmtApplied p _ body => { T with pmt := (p, body) :: T.pmt.filter fun x => decide (x.1 ≠ p) }
+  | _ => T
+
+def curFrom (T : Current) (evs : List Event) : Current := evs.foldl stepCurrent T
+
+/-- the tables in force after the history `evs` (from `Demultiplex::new`) -/
+def currentOf (evs : List Event) : Current := curFrom ⟨[], []⟩ evs
+
+/-- **Collision-freedom of the tables in force.**  Only the CURRENT PAT and the CURRENT PMT of each
+announced program are compared:
+1. PAT entries with the same PID are of the same kind (program / network);
+2. no stream PID of a PMT in force is the PID of a current PAT entry;
+3. no stream PID is listed by the PMTs in force of two different program-map PIDs.
+Nothing is said about tables that have been superseded, so a PID may move between programs or change
+role over time.  (PID 0 needs no clause: `wfEv` keeps it out of PAT entries.) -/
+def CollisionFreeNow (T : Current) : Prop :=
+  (∀ e ∈ T.pat, ∀ e' ∈ T.pat, e.pid = e'.pid → isProgram e = isProgram e') ∧
+  (∀ x ∈ T.pmt, ∀ s ∈ streamsOf x.2, ∀ e ∈ T.pat, s.pid ≠ e.pid) ∧
+  (∀ x ∈ T.pmt, ∀ y ∈ T.pmt, ∀ s ∈ streamsOf x.2, ∀ s' ∈ streamsOf y.2, s.pid = s'.pid → x.1 = y.1)
+
+instance (T : Current) : Decidable (CollisionFreeNow T) := by
+  unfold CollisionFreeNow; infer_instance
+
+/-- the tables in force are collision-free after every prefix of the history (decidable: only the
+prefixes up to the length matter, `collisionFreeNowAll_iff`) -/
+def CollisionFreeNowAll (evs : List Event) : Prop := ∀ k, CollisionFreeNow (currentOf (evs.take k))
+
+/-! ### the "dropped PIDs" clause of C05 with TAGS, at full strength (FALSE of the pinned code: F7) -/
+
+/-- **"PIDs dropped by a newer version of the same table stop being handled by the handler that table
+installed"**, for PMTs, as a statement about handler tags: if right after PMT version `v1` on `p`
+PID `q` (listed by it) is routed to the handler instance with tag `tag`, and the NEXT PMT version
+applied on `p` does not list `q`, then after that version `q` is no longer routed to the instance
+with tag `tag`.  (Weaker than `DroppedClausePmt`, which demands that `q` is un-routed.) -/
+def DroppedClausePmt' : Prop :=
+  ∀ (pre mid : List Event) (p v1 v2 : Nat) (b1 b2 : Bytes) (q tag : Nat),
+    WF initRoute (pre ++ (.pmtApplied p v1 b1 :: mid ++ [.pmtApplied p v2 b2])) →
+    CollisionFree (pre ++ (.pmtApplied p v1 b1 :: mid ++ [.pmtApplied p v2 b2])) →
+    (∀ ev ∈ mid, ∀ v b, ev ≠ .pmtApplied p v b) →
+    tagOf (run initRoute (pre ++ [.pmtApplied p v1 b1])) q = some tag →
+    q ∈ (streamsOf b1).map StreamInfo.pid → q ∉ (streamsOf b2).map StreamInfo.pid →
+    tagOf (run initRoute (pre ++ (.pmtApplied p v1 b1 :: mid ++ [.pmtApplied p v2 b2]))) q ≠ some tag
+
+/-! ### interleaved realisation: elementary-stream packets BETWEEN the packets of one table -/
+
+/-- `q` is not named by the table event `ev` happening in state `r`: neither listed by the new
+version nor installed by the version it supersedes (as remembered by the handler instance).  For the
+one-packet events (`esPacket`, `repetition`) nothing can be interleaved. -/
+def Unnamed (r : Route) (q : Nat) : Event → Prop
+  | .patApplied _ es => q ∉ es.map PatEntry.pid ∧ q ∉ r.patEntries.map PatEntry.pid
+  | .pmtApplied p _ body =>
+      q ∉ (streamsOf body).map StreamInfo.pid ∧ q ∉ (r.pmt p).streams.map StreamInfo.pid
+  | _ => False
+
+/-- `q` is routed to a PES filter (a stream request whose stream type `is_pes`) -/
+def pesRouted (r : Route) (q : Nat) : Prop :=
+  ∃ pp st a pcr d1 d2 tag, r.slots q = some (.stream pp st a pcr d1 d2, tag) ∧ isPes st = true
+
+/-- a packet that may sit between (before, after) the packets of the table event `ev` happening in
+state `r`: an unflagged 188-byte packet on a PID that is routed to a PES filter and is not named by
+the event -/
+def Foreign (r : Route) (ev : Event) (pk : Pk) : Prop :=
+  pk.flagged = false ∧ pk.bytes.length = 188 ∧ pesRouted r pk.pid ∧ Unnamed r pk.pid ev
+
+/-- `pks` is `own` with packets satisfying `F` inserted at arbitrary positions (order kept) -/
+inductive Interleaves (F : Pk → Prop) : List Pk → List Pk → Prop where
+  | nil : Interleaves F [] []
+  | own {o pks : List Pk} (pk : Pk) : Interleaves F o pks → Interleaves F (pk :: o) (pk :: pks)
+  | foreign {o pks : List Pk} (pk : Pk) : F pk → Interleaves F o pks → Interleaves F o (pk :: pks)
+
+/-- the packets of one event with foreign packets interleaved -/
+def RealisesEvI (r : Route) (ev : Event) (pks : List Pk) : Prop :=
+  ∃ own, RealisesEv r ev own ∧ Interleaves (Foreign r ev) own pks
+
+/-- `Realises` with interleaving inside every table transmission.  (Packets on PIDs NOT routed to a
+PES filter — other tables, recorders, unknown PIDs — must still sit between events.) -/
+inductive RealisesI : Route → List Event → List Pk → Prop where
+  | nil (r : Route) : RealisesI r [] []
+  | cons {r : Route} {ev : Event} {evs : List Event} {pks1 pks2 : List Pk} :
+      RealisesEvI r ev pks1 → RealisesI (stepRoute r ev) evs pks2 → RealisesI r (ev :: evs) (pks1 ++ pks2)
 
 end Ts.Spec.RoutingHistory
